@@ -95,6 +95,14 @@ VARIANTS = [
           _replace_name(nd, "self.current_epoch", "epoch0"))],
       note="epoch clock hoisted out of the chunk loop: every chunk restarts at the same time",
       expect_rule="C07.R3"),
+    V("c07_seq_epoch_rebound", "M", Q, "KernelSequence.start_epoch",
+      *replace_expr("kernel.start_epoch(keys[i], kernel_states[i], model_state, epoch)",
+                    "kernel.start_epoch(keys[i], kernel_states[i], epoch, model_state)"),
+      note="arguments swapped", expect_rule="C07.R8"),
+    V("c07_seq_th_first_kernel", "M", Q, "KernelSequence.end_warmup",
+      *replace_stmt("th = tuning_history[kernel.identifier]",
+                    "th = tuning_history[self._kernels[0].identifier]"),
+      note="every kernel gets the first kernel's tuning history", expect_rule="C07.R8"),
     # ---- twins
     V("c07_t_split_once", "T", E, "Engine._sample_for_duration",
       lambda nd: isinstance(nd, ast.For),
